@@ -56,7 +56,9 @@ type cfAPI struct {
 	log   []cfReq
 	// failures: key -> kind ("http403", "http404", "notsuccess", "http500")
 	fail  map[string]string
-	token string
+	// onPatch, when set, runs when a PATCH request arrives (before it is answered)
+	onPatch func(recID string)
+	token   string
 	srv   *http.Server
 	url   url.URL
 }
@@ -191,6 +193,9 @@ func (a *cfAPI) handle(w http.ResponseWriter, r *http.Request) {
 		if rec == nil {
 			a.reply(w, 404, map[string]any{"success": false, "errors": []map[string]any{{"code": 81044, "message": "Record does not exist"}}})
 			return
+		}
+		if a.onPatch != nil {
+			a.onPatch(rec.ID)
 		}
 		if a.failed(w, "patch:"+rec.ID) {
 			return
@@ -674,3 +679,78 @@ func seenZones(ts []publish.Target) map[string]bool {
 }
 
 var _ = sort.Strings
+
+
+// TestC20Cancel: the caller's context ends while a record is being written. Whatever
+// the statuses then are, the call still returns exactly one result per requested
+// record, and no record other than the requested ones is touched.
+func TestC20Cancel(t *testing.T) {
+	rec := ev.Get("C20")
+	rapid.Check(t, func(t *rapid.T) {
+		cfAPIOnce.Do(func() {
+			a, err := newCFAPI()
+			if err != nil {
+				panic(err)
+			}
+			cfShared = a
+		})
+		cfMu.Lock()
+		defer cfMu.Unlock()
+		api := cfShared
+		api.zones, api.log, api.fail = nil, nil, map[string]string{}
+		c20Lists = nil
+		z := &cfZone{ID: "zonecid", Name: "cancel.example"}
+		n := rapid.IntRange(2, 8).Draw(t, "nrec")
+		for i := 0; i < n; i++ {
+			z.Records = append(z.Records, &cfRecord{ID: fmt.Sprintf("crec%d", i), Name: fmt.Sprintf("h%d.%s", i, z.Name), Type: "HTTPS", Priority: 1, Target: ".", Value: genSvcValue(t, "v")})
+		}
+		api.zones = []*cfZone{z}
+		before := map[string]string{}
+		for _, r := range z.Records {
+			before[r.ID] = r.Value
+		}
+		var targets []publish.Target
+		requested := map[string]bool{}
+		for _, i := range rapid.Permutation([]int{0, 1, 2, 3, 4, 5, 6, 7}[:n]).Draw(t, "order")[:rapid.IntRange(2, n).Draw(t, "ntargets")] {
+			targets = append(targets, publish.Target{Zone: z.Name, Name: z.Records[i].Name})
+			requested[z.Records[i].ID] = true
+		}
+		cancelOn := rapid.IntRange(1, len(targets)).Draw(t, "cancel_on_nth_patch")
+		ctx, cancel := context.WithCancel(context.Background())
+		defer cancel()
+		npatch := 0
+		api.onPatch = func(string) {
+			npatch++
+			if npatch == cancelOn {
+				cancel()
+				time.Sleep(10 * time.Millisecond) // the client notices before the answer arrives
+			}
+		}
+		defer func() { api.onPatch = nil }()
+		cf := publish.NewCloudflarePublisher("tok")
+		cf.SetBaseURLForVerif(api.url, 5*time.Millisecond, 2)
+		list := hello.GenBytes(t, "list", 40)
+		var results []publish.TargetResult
+		perr := guard(func() error { results = cf.PublishECH(ctx, targets, list); return nil })
+		rp := map[string]any{"targets": fmt.Sprintf("%+v", targets), "cancel_on_patch": cancelOn, "results": fmt.Sprintf("%+v", results)}
+		if perr != nil {
+			ev.Violation(t, "C20", rp, "PublishECH panicked: %v", perr)
+		}
+		if len(results) != len(targets) {
+			ev.Violation(t, "C20", rp, "the context ended during the write of record %d: %d results for %d requested records", cancelOn, len(results), len(targets))
+		}
+		b64 := base64.StdEncoding.EncodeToString(list)
+		for _, r := range z.Records {
+			if r.Value == before[r.ID] {
+				continue
+			}
+			got, _ := echOf(r.Value)
+			if !requested[r.ID] || got != b64 || strings.Join(withoutECH(r.Value), " ") != strings.Join(withoutECH(before[r.ID]), " ") {
+				ev.Violation(t, "C20", rp, "record %s changed from %q to %q (requested=%v)", r.ID, before[r.ID], r.Value, requested[r.ID])
+			}
+		}
+		rec.Case(fmt.Sprintf("cancel|%d|%d|%d", n, len(targets), cancelOn), true, []string{"context_ends_during_a_write"}, func() any {
+			return map[string]any{"kind": "cancel_during_patch", "targets": len(targets), "cancel_on": cancelOn, "results": fmt.Sprintf("%+v", results)}
+		})
+	})
+}
